@@ -162,7 +162,10 @@ func (a *FuncAction) Exec(ctx context.Context, bs Bindings, props StepProps) (*E
 
 	exe, err := a.F(ctx, bs, props)
 
-	if Exp_PermanentBindings {
+	// Restore the permanent bindings only when the execution returned
+	// bindings.  A failed execution can return no Execution at all, and
+	// a guard that rejects returns nil bindings (which must stay nil).
+	if Exp_PermanentBindings && exe != nil && exe.Bs != nil {
 		for p, v := range permanent {
 			exe.Bs[p] = v
 		}
